@@ -225,11 +225,21 @@ def r5_insertion(ctx):
     first = f.body[0] if not (isinstance(f.body[0], ast.Expr) and isinstance(f.body[0].value, ast.Constant)) else f.body[1]
     ok = isinstance(first, ast.Expr) and isinstance(first.value, ast.Call) and A.call_target(first.value) == ('self', '_cleanup')
     yield Ob('x12context:X12DataNode._get_insert_idx sweeps tombstones first', ok, ctx.floc(f), '' if ok else 'first statement %s' % norm(first))
-    cmp_ = [n for n in ast.walk(f) if isinstance(n, ast.Compare) and 'x12_map_node.pos' in norm(n.left)]
-    ok = len(cmp_) == 1 and isinstance(cmp_[0].ops[0], ast.LtE) and path_of(cmp_[0].comparators[0]) == 'map_idx'
+    # the one comparison between a sibling's map position and the new node's: true for an earlier or equal position
+    cmp_ = []
+    for n in ast.walk(f):
+        if isinstance(n, ast.Compare) and len(n.ops) == 1:
+            sides = [n.left, n.comparators[0]]
+            sib = [x for x in sides if norm(x).endswith('x12_map_node.pos')]
+            new = [x for x in sides if norm(x) in ('map_idx', 'x12_node.pos')]
+            if len(sib) == 1 and len(new) == 1:
+                e = A.abstract(n, {ast.unparse(sib[0]): 'SIB', ast.unparse(new[0]): 'NEW'})
+                cmp_.append((n, e))
+    ok = len(cmp_) == 1 and [bool(A.ev(cmp_[0][1], {'SIB': a, 'NEW': 20})) for a in (10, 20, 30)] == [True, True, False]
     yield Ob('x12context:X12DataNode._get_insert_idx goes after siblings of the same or an earlier map position', ok, ctx.floc(f),
-             '' if ok else 'comparison is %s' % [norm(c) for c in cmp_])
-    ok = 'map_idx = x12_node.pos' in txt and 'return idx + 1' in txt and 'return len(self.children)' in txt
+             '' if ok else 'comparison is %s' % [norm(c[0]) for c in cmp_])
+    rets = {A.canon(n.value) for n in ast.walk(f) if isinstance(n, ast.Return) and n.value is not None}
+    ok = rets == {'(1+idx)', 'len(self.children)'}
     require_idiom(ok, 'c10.py:231')
     yield Ob('x12context:X12DataNode._get_insert_idx returns the slot after the last such sibling', ok, ctx.floc(f), '' if ok else 'return logic changed')
     for q, var in (('X12LoopDataNode.add_segment', 'x12_seg_node'), ('X12LoopDataNode.add_node', 'data_node.x12_map_node'), ('X12LoopDataNode._add_loop_node', 'x12_loop_node')):
